@@ -351,10 +351,12 @@ func (usi *UnrotatedSegmentInfo) DoCMICheckForUnrotated(currQuery *structs.Searc
 	if wildcardColQuery {
 		colsToCheck = usi.allColumns
 	}
+	// a block without the words of a negated match is a block full of matches
+	negateMatch := currQuery.MatchFilter != nil && currQuery.MatchFilter.NegateMatch
 	var err error
 	if isRange {
 		err = usi.doRangeCheckForCols(timeFilteredBlocks, rangeFilter, rangeOp, colsToCheck, qid)
-	} else if !wildcardValue {
+	} else if !wildcardValue && !negateMatch {
 		err = usi.doBloomCheckForCols(timeFilteredBlocks, bloomWords, originalBloomWords, bloomOp, colsToCheck, qid)
 	}
 
